@@ -17,6 +17,8 @@ RUSTFLAGS="-Cinstrument-coverage" cargo +nightly build --offline --profile verif
 IDS=("$@"); [ ${#IDS[@]} -eq 0 ] && IDS=(C01 C02 C03 C04 C05 C06 C07 C08 C09 C10 C11 C12 C13 C14 C15 C16 C17 C18 C19)
 # the child stages use the ordinary (uninstrumented) binaries; only the parent workload is counted
 export VCHECK_TARGET_DIR="$ROOT/harness/target"
+# evidence and replay files of these instrumented runs are scratch, not evidence
+export VERIF_EVIDENCE_DIR="$RAW/evidence" VERIF_REPLAY_DIR="$RAW/replays"
 for id in "${IDS[@]}"; do
   case "$id" in C07|C17) fl=hooks ;; *) fl=nohooks ;; esac
   export VCHECK_REL_BIN="$ROOT/harness/target-rel-$fl/verifrel/vcheck" VCHECK_REL_FLAVOUR="$fl"
